@@ -9,7 +9,7 @@ import (
 )
 
 func init() {
-	register("C01", "Decides the gates that make 'Completed' imply 'both ends finished cleanly': in impl.OnChannelCompleted every completion effect is dominated by completeErr==nil, the role test and a successful send of the Complete message (dominance facts over SSA); the completion events have only their confirmed emitters (who-may-call over resolved callees); the transport passes a nil completion error only on the RequestCompletedFull / lastError==nil paths and never reports a cancellation as completion (path enumeration with phi resolution); the FSM completion diamond (shared with C03); blocks are accounted only when they went on the wire, with size/index/uniqueness from the block (shared with C07.5/6), and a per-channel store stays marked registered for the channel's lifetime (shared with C16.5). Not decided: block-store contents, byte totals, healing by restart — run-time data.",
+	register("C01", "Decides the gates that make 'Completed' imply 'both ends finished cleanly': in impl.OnChannelCompleted every completion effect is dominated by completeErr==nil, the role test and a successful send of the Complete message (dominance facts over SSA); the completion events have only their confirmed emitters (who-may-call over resolved callees); the transport passes a nil completion error only on the RequestCompletedFull / lastError==nil paths and never reports a cancellation as completion (path enumeration with phi resolution); the FSM completion diamond (shared with C03); blocks are accounted only when they went on the wire, with size/index/uniqueness from the block (shared with C07.5/6), and a per-channel store stays marked registered for the channel's lifetime (shared with C16.5); the reply to a validation update announces the pause state the request is left in (shared C04.7) and the 2→3 migration carries every total over (shared C13.1). Not decided: block-store contents, byte totals, healing by restart — run-time data.",
 		func(c *core.Ctx) {
 			r := newR(c)
 			c01Gates(r)
@@ -17,6 +17,11 @@ func init() {
 			c01Transport(r)
 			c07Transport(r)
 			c16Store(r)
+			// the responder's reply during (multi-round) finalization says paused exactly when
+			// the request stays paused, so the initiator does not complete early (shared C04.7)
+			c04Update(r)
+			// byte totals survive the upgrade of a store written by the previous release (shared C13.1)
+			c13Copy(r)
 			f := fsmOrStuck(c, "C01.5")
 			c03If(c, f)
 			c03OnlyIf(c, f)
